@@ -15,8 +15,8 @@ THEOREMS = [
     (NS + "C04_message_once_partial", "partial"),
     (NS + "C04_redelivery_witness", "witness"),
 ]
-# secondary tie (DESIGN 4.2): kernels regenerated from the source on every run, proved equal to the model (Props/Equiv.lean)
-EQUIV_THEOREMS = ["Mpgs.Equiv.gen_stale", "Mpgs.Equiv.gen_insert", "Mpgs.Equiv.gen_diff", "Mpgs.Equiv.gen_ack_names"]
+# secondary tie (DESIGN 4.2): kernels regenerated from the source on every run, proved equal to the model (Props/Equiv<Group>.lean)
+EQUIV = {"Seq": ["Mpgs.Equiv.gen_diff"], "Window": ["Mpgs.Equiv.gen_insert", "Mpgs.Equiv.gen_contains", "Mpgs.Equiv.gen_stale"]}
 ASSUMPTIONS = [
     "datagram positions of a history span less than half the sequence ring (the property's own 32767 bound)",
     "message-level at-most-once is proved only while every copy arrives at most 256 message numbers late (C04_message_once_partial); "
